@@ -631,6 +631,7 @@ func TestC06(t *testing.T) {
 			r.Sample(map[string]any{"scenario": sc, "events_head": head(res.Events, 40), "parked_disconnects": parked})
 		}
 	})
+	overlappingClose(r)
 	r.Require("conns", 1000)
 	r.Require("parked_disconnects", 20)
 	r.Require("forced_notconnected", 20)
